@@ -531,7 +531,7 @@ func sessionCallState() string {
 		buf = make([]byte, 2*len(buf))
 	}
 	for _, blk := range strings.Split(string(buf), "\n\n") {
-		if !strings.Contains(blk, "zzverif.sessionCall") {
+		if !strings.Contains(blk, "zzverif.sessionCall(") {
 			continue
 		}
 		head := blk
